@@ -383,20 +383,28 @@ impl IsoDate {
         // 1. Assert: year, month, day, years, months, weeks, and days are integers.
         // 2. Assert: overflow is either "constrain" or "reject".
         // 3. Let intermediate be ! BalanceISOYearMonth(year + years, month + months).
-        let intermediate = balance_iso_year_month(
-            self.year + duration.years.as_date_value()?,
-            i32::from(self.month) + duration.months.as_date_value()?,
-        );
+        // NOTE: the sums are formed in 64 bits; a year that does not fit the date value range
+        // can never be balanced back into the representable dates.
+        let intermediate = balance_iso_year_month_with_range_check(
+            i64::from(self.year) + i64::from(duration.years.as_date_value()?),
+            i64::from(self.month) + i64::from(duration.months.as_date_value()?),
+        )?;
 
         // 4. Let intermediate be ? RegulateISODate(intermediate.[[Year]], intermediate.[[Month]], day, overflow).
         let intermediate =
             Self::new_with_overflow(intermediate.0, intermediate.1, self.day, overflow)?;
 
         // 5. Set days to days + 7 × weeks.
-        let additional_days =
-            duration.days.as_date_value()? + (duration.weeks.as_date_value()? * 7);
+        let additional_days = i64::from(duration.days.as_date_value()?)
+            + (i64::from(duration.weeks.as_date_value()?) * 7);
+        // NOTE: an offset larger than the whole representable range always leaves it.
+        if additional_days.abs() > 2 * i64::from(MAX_EPOCH_DAYS) {
+            return Err(
+                TemporalError::range().with_message("Date is not within ISO date time limits.")
+            );
+        }
         // 6. Let d be intermediate.[[Day]] + days.
-        let intermediate_days = i32::from(intermediate.day) + additional_days;
+        let intermediate_days = i32::from(intermediate.day) + additional_days as i32;
 
         // 7. Return BalanceISODate(intermediate.[[Year]], intermediate.[[Month]], d).
         Ok(Self::balance(
@@ -994,6 +1002,16 @@ pub(crate) fn year_month_within_limits(year: i32, month: u8) -> bool {
     }
     // 4. Return true.
     true
+}
+
+/// `BalanceISOYearMonth` on 64-bit sums, returning a `RangeError` if the balanced year is not a date value.
+#[inline]
+fn balance_iso_year_month_with_range_check(year: i64, month: i64) -> TemporalResult<(i32, u8)> {
+    let y = year + (month - 1).div_euclid(12);
+    let m = (month - 1).rem_euclid(12) + 1;
+    let y = i32::try_from(y)
+        .map_err(|_| TemporalError::range().with_message("year is not a valid date value."))?;
+    Ok((y, m as u8))
 }
 
 #[inline]
